@@ -27,7 +27,7 @@ def ProcessOptions(options, document):
                        format='${thesubparagraph}.${subsubparagraph}')
 
     context.newcounter('equation', resetby='chapter',
-                       format='${thechapter}.${equation}')
+                       format='${thechapter}.${equation}', trimLeft=True)
 
     context.newcounter('secnumdepth')
     context.newcounter('tocdepth')
